@@ -14,7 +14,11 @@ SA == <<D("src"), D("sub"), Seg("a", "lua")>>
 SB == <<D("src"), D("sub"), Seg("b", "lua")>>
 DC == <<D("src"), D("sub"), D("deep"), Seg("c", "lua")>>
 XU == <<D("src"), Seg("x", "luau")>>
-Trees == IF Thorough THEN {<<A, SA, SB, DC, XU>>, <<A, B, SA, SB, DC>>, <<B, DC>>} ELSE {<<A, SA, SB, DC, XU>>, <<B, DC>>}
+TA == <<D("src"), Seg("test_a", "lua")>>
+TB == <<D("src"), Seg("test_b", "lua")>>
+MN == <<D("src"), Seg("main", "lua")>>
+STA == <<D("src"), D("sub"), Seg("test_a", "lua")>>
+Trees == IF Thorough THEN {<<A, SA, SB, DC, XU>>, <<A, B, SA, SB, DC>>, <<B, DC>>, <<TA, TB, MN, STA, SA>>} ELSE {<<A, SA, SB, DC, XU>>, <<B, DC>>, <<TA, TB, MN, STA, SA>>}
 
 L(n) == Lit(n, "")
 Patterns == <<
@@ -32,7 +36,13 @@ Patterns == <<
   <<DStar, L("sub"), DStar>>,                    \* 12  **/sub/**
   <<L("src"), DStar, Lit("a", "lua")>>,          \* 13  src/**/a.lua   (`**` may match no directory)
   <<Ext("lua")>>,                                \* 14  *.lua          (one component only)
-  <<L("src"), Star, Star, Ext("lua")>>           \* 15  src/*/*/*.lua
+  <<L("src"), Star, Star, Ext("lua")>>,          \* 15  src/*/*/*.lua
+  <<L("src"), Glob("test_*.lua")>>,              \* 16  src/test_*.lua (wildcard inside a component)
+  <<DStar, Glob("te*")>>,                        \* 17  **/te*
+  <<L("src"), Glob("ma?n.lua")>>,                \* 18  src/ma?n.lua
+  <<Glob("s*"), L("sub"), Glob("*_a.lua")>>,     \* 19  s*/sub/*_a.lua
+  <<DStar, Glob("*_?.lua")>>,                    \* 20  **/*_?.lua
+  <<L("src"), L("sub"), Glob("t*")>>             \* 21  src/sub/t*
 >>
 NP == Len(Patterns)
 
@@ -40,7 +50,7 @@ NP == Len(Patterns)
 PL(form, idx) == [form |-> form, pats |-> [i \in DOMAIN idx |-> Patterns[idx[i]]]]
 NoList == PL("none", <<>>)
 Singles == {PL("one", <<p>>) : p \in 1..NP}
-Arrays == {PL("many", <<1, 5>>), PL("many", <<2, 12>>), PL("many", <<7, 8>>), PL("many", <<3>>), PL("many", <<>>), PL("many", <<10, 14>>)}
+Arrays == {PL("many", <<1, 5>>), PL("many", <<2, 12>>), PL("many", <<7, 8>>), PL("many", <<3>>), PL("many", <<>>), PL("many", <<10, 14>>), PL("many", <<16, 18>>), PL("many", <<5, 17>>)}
           \cup (IF Thorough THEN {PL("many", <<p, q>>) : p \in {1, 2, 4, 6}, q \in {3, 5, 7, 11, 13}} \cup {PL("many", <<p>>) : p \in 1..NP} ELSE {})
 Lists == {NoList} \cup Singles \cup Arrays
 FewLists == {NoList, PL("one", <<1>>), PL("many", <<2, 12>>)}
